@@ -1062,7 +1062,7 @@ def emit():
         text = render(t)
     except Exception as ex:
         core.write_if_changed(OUT, "(* translate/fitretry.py could not translate the current source, no definition emitted:\n   %s *)\n"
-                              % str(ex).replace("*)", "* )").replace("(*", "( *"))
+                              % str(ex).replace("*)", "* )").replace("(*", "( *").replace('"', "'"))
         raise
     changed = core.write_if_changed(OUT, text)
     return dict(out=str(OUT.relative_to(core.VERIF)), changed=changed, differs_from_reference=diff(t))
